@@ -316,7 +316,7 @@ class SafeLearner(Learner):
 
         if self._pred_batch == 'not':
             kwargs = pred[-1] if self._pred_kwargs else {}
-            pred   = pred[ 0] if self._pred_kwargs and len(pred)==2 else pred
+            pred   = (pred[0] if len(pred)==2 else pred[:-1]) if self._pred_kwargs else pred
 
             if self._pred_format.endswith('*'):
                 pred = list(pred.values())[0]
